@@ -505,7 +505,7 @@ class Interp:
                 raise Reject("internal value invalid")
             return end, back
         if kind == "dtcdop":
-            codes = {t["name"]: t["code"] for t in d["dtcs"]}
+            codes = {t["name"]: t["code"] for t in self.all_dtcs(d)}
             if isinstance(value, str):
                 if value not in codes:
                     raise Reject("unknown DTC name")
@@ -639,6 +639,14 @@ class Interp:
             return bytes.fromhex(t) if isinstance(t, str) else bytes(t)
         return str(t)
 
+    def all_dtcs(self, d: Dict[str, Any]) -> List[Dict[str, Any]]:
+        """own DTCs plus those of the linked DTC-DOPs that are not excluded by NOT-INHERITED-DTC-SNREFS"""
+        out = list(d["dtcs"])
+        for ln in d.get("linked", []):
+            other = self.dops[ln["dop"]]
+            out += [t for t in self.all_dtcs(other) if t["name"] not in ln.get("not_inherited", [])]
+        return out
+
     @staticmethod
     def mux_case_for(d: Dict[str, Any], kv: Any) -> Optional[Dict[str, Any]]:
         for c in d["cases"]:
@@ -661,7 +669,7 @@ class Interp:
             return compu_i2p(d.get("cm"), d["dct"]["base"], ptype, internal), end
         if kind == "dtcdop":
             internal, end = self.dec_dct(d["dct"], pdu, byte, bit, lk)
-            if internal not in [t["code"] for t in d["dtcs"]]:
+            if internal not in [t["code"] for t in self.all_dtcs(d)]:
                 raise Mismatch("unknown DTC")
             return {"dtc": internal}, end
         if kind == "struct":
@@ -891,7 +899,7 @@ class Interp:
                 dop = self.dops[p["dop"]]
                 if dop.get("kind") == "dtcdop":
                     if isinstance(v, str):
-                        return {t["name"]: t["code"] for t in dop["dtcs"]}[v]
+                        return {t["name"]: t["code"] for t in self.all_dtcs(dop)}[v]
                     if isinstance(v, dict):
                         return v["dtc"]
                     return v
